@@ -154,8 +154,8 @@ fn binary<C: CellType>(tm: &mut Tally, ta: &mut Tally, w: &str) {
     let vals = cells::<C>();
     for (i, p) in fam.iter().enumerate() {
         for (j, q) in fam.iter().enumerate() {
-            if (i + 3 * j) % 4 != 0 {
-                continue; // a quarter of all pairs
+            if (i + 3 * j) % VERIF_PARAM_PAIRMOD != 0 {
+                continue; // quick tier: a quarter of all pairs; thorough: all
             }
             let m = p.mul(q);
             let s = p.add(q);
